@@ -282,6 +282,8 @@ void h_class_init(void)
         build_hierarchy(d, cm, dm);
         g_mode = M_CLASSINIT; g_in_env = 0; g_envinit_done = 0; g_env_init = ei;
         parsec_class_t *cls = &K[0];
+        parsec_construct_t *base_ca = parsec_object_t_class.cls_construct_array;
+        parsec_destruct_t  *base_da = parsec_object_t_class.cls_destruct_array;
 
         parsec_class_initialize(cls);
 
@@ -294,7 +296,8 @@ void h_class_init(void)
         for (int i = 1; i < MAXD; i++)
             V_ASSERT(K[i].cls_initialized == 0 && K[i].cls_construct_array == NULL,
                      "C34.parsec_class_initialize.post.parent_classes_untouched");
-        V_ASSERT(parsec_object_t_class.cls_construct_array == NULL && parsec_object_t_class.cls_initialized == 1,
+        V_ASSERT(parsec_object_t_class.cls_construct_array == base_ca && parsec_object_t_class.cls_destruct_array == base_da &&
+                 parsec_object_t_class.cls_initialized == 1 && parsec_object_t_class.cls_depth == 0,
                  "C34.parsec_class_initialize.post.base_class_untouched");
 
         /* idempotent */
